@@ -189,7 +189,9 @@ def parse_rdata(buf: bytes, start: int, end: int, rtype: int):
     return ("names",) + tuple(out)
 
 
-def decode(buf: bytes) -> dict:
+def decode(buf: bytes, lenient_rdata: bool = False) -> dict:
+    """lenient_rdata: a record whose RDATA does not parse as its type is returned as
+    ("bad", raw octets, reason) instead of failing the whole message (framing must still be exact)."""
     buf = bytes(buf)
     if len(buf) < 12:
         raise DecodeError("shorter than a header")
@@ -214,7 +216,12 @@ def decode(buf: bytes) -> dict:
             pos += 10
             if pos + rdlen > len(buf):
                 raise DecodeError("RDATA runs past the message")
-            rd = parse_rdata(buf, pos, pos + rdlen, t)
+            try:
+                rd = parse_rdata(buf, pos, pos + rdlen, t)
+            except DecodeError as e:
+                if not lenient_rdata:
+                    raise
+                rd = ("bad", bytes(buf[pos:pos + rdlen]), str(e))
             pos += rdlen
             m[sec].append((name, t, c, ttl, rd))
     if pos != len(buf):
